@@ -199,7 +199,7 @@ Definition run_candidate (inp : list N) : list N :=
     | term :: vterm :: vcand :: li :: lt :: r2 =>
       let P := mkP self false false false 100 4 (fun _ => cfg) in
       let s := mkNS term vterm (if vcand =? 0 then None else Some (vcand - 1)) ∅ 0 0 []
-                    Follower term 0 0 li lt 0 0 cfg 1 cfg 1 0 0 (n2b tr) [] in
+                    Follower term 0 0 li lt 0 0 cfg 1 cfg 1 0 0 (n2b tr) [] (0, 0) in
       let '(x0, tr0) := sess_enter P (n2b pv) s in
       enc_sess x0 ++ flat_map enc_stable_ev tr0 ++ [99] ++ sess_trace P (n2b pv) x0 (dec_cevs (length r2) r2)
     | _ => []
